@@ -288,8 +288,6 @@ def run_inproc(chk, testbin, worlds, judge, stats):
         if o["err"]:
             raise C.Undecided("in-process replay of world %s (%s) failed: %s" % (o["id"], w.variant, o["err"][:1500]))
         lost = [(f["fn"], f["lost"]) for f in o["funcs"] if f.get("lost")]
-        if lost:
-            raise C.Undecided("harness model of cl's compile set is wrong (function not defined where expected): %s" % lost[:3])
         cls_ids = {}
 
         def cid(c):
@@ -319,6 +317,12 @@ def run_inproc(chk, testbin, worlds, judge, stats):
             c = {"kind": "desc", "t": t} if t is not None else {"kind": "other", "fn": "type " + d["key"]}
             by_name[d["name"]].append((c, "", d["key"]))
             by_class[G.cj(c)].append((d["name"], "", True, c))
+        if lost:
+            # a function the package should emit has no definition under its name: explained only when a collision
+            # swallowed its body (or its parent's); otherwise the harness's transcription of cl's rules is wrong
+            if not any(len({G.cj(c) for c, _, _ in obs}) > 1 for obs in by_name.values()):
+                raise C.Undecided("harness model of cl's compile set is wrong (function not defined where expected): %s" % lost[:3])
+            stats["inproc_functions_without_definition"] += len(lost)
         stats["inproc_functions"] += len(o["funcs"])
         stats["inproc_mapped_to_spec"] += mapped
         names = sorted(by_name)
@@ -541,6 +545,8 @@ def check(chk):
             C.log("C14: %d worlds replayed in process at +%.0fs" % (len(ip_worlds), time.time() - chk.t0))
             for f in futs:
                 f.result()
+    if thorough:
+        layer_b(chk)
     # negative controls: one corrupted expectation, one invented collision, one invented duplicate definition
     w0 = ip_worlds[0]
     neg_ids = {
@@ -592,6 +598,16 @@ def check(chk):
         "wrappers made for unnamed receiver types are private to the package that makes them (no program-wide identity in Go), "
         "so Agree is not demanded of them; Injective and Reach are",
     ]
+
+
+def layer_b(chk):
+    """layer B (report only): the naming scheme as an abstract function, model-checked against A's Injective / Agree"""
+    out = {}
+    for cfg, scheme in (("impl_bare.cfg", "bare"), ("impl_qualified.cfg", "qualified")):
+        res = C.tlc(SPEC, "NamingImpl", cfg, chk.rd.path, timeout=1500, parse_json=False, workers=4)
+        chk.add_tlc(res, "NamingImpl/" + scheme)
+        out[scheme] = "Injective and Agree hold over all pairs of references" if res.ok else ("violated: %s" % res.violation)
+    chk.cov["layer_b_scheme_models"] = out
 
 
 def finding_key(rec, d):
